@@ -27,6 +27,7 @@ import os
 import time
 import warnings
 
+import c09_texts
 import gensql
 import sqlcheck
 import sqlimpl
@@ -633,6 +634,26 @@ def run(chk):
                 if len(chk.samples) < 8 and e["id"] in ("K1", "L1"):
                     chk.samples.append({"known_finding": e["id"], "sql": winfo[i]["sql"], "analyzer": an, "reference": e["witness"]["reference"],
                                         "reference_outcome": o_ref, "analyzer_outcome": o})
+    # ---- (d) the text family: constructs outside the typed AST, under EVERY installed dialect + the legacy analyzer (both tiers)
+    text_pairs = {}
+    for e in chk.findings:
+        if e.get("status") == "finding":
+            for tp in e.get("text_pairs", []):
+                text_pairs[tuple(tp)] = e["id"]
+    tdis, tstats = c09_texts.evaluate(run_jobs, installed + [LEGACY])
+    text_reported = 0
+    for tid, d, what, ref_d, ref, got in tdis:
+        fid = text_pairs.get((tid, d, what))
+        chk.count(canon_json(["text", tid, d, what]), True)
+        if fid is not None:
+            total[fid] += 1
+        elif text_reported < 4:
+            text_reported += 1
+            chk.violation(f"analyzer `{d}` disagrees with `{ref_d}` on the {what} of a core statement (text family `{tid}`)",
+                          {"kind": "text-family", "id": tid, "sql": dict(c09_texts.TEXTS)[tid], "analyzer": d, "what": what,
+                           "reference": ref_d, "reference_outcome": ref, "analyzer_outcome": got})
+    tstats["disagreements"] = len(tdis)
+    tstats["listed_pairs_not_reproduced"] = sorted(f"{k[0]}@{k[1]}:{k[2]}" for k in text_pairs if k not in {(a, b, c) for a, b, c, *_ in tdis})
     # dialect findings recorded with their SQL text only (DML families the C09 generator does not produce)
     twit = [e for e in chk.findings if e.get("status") == "finding" and (e.get("witness") or {}).get("kind") == "sql-text"]
     if twit:
@@ -680,6 +701,7 @@ def run(chk):
         "agreed_outside_own_classes": dict(outside_agree),
         "findings_not_reproduced": not_reproduced,
         "tsql_batch_scripts": dict(script_stats),
+        "text_family": dict(tstats, texts=len(c09_texts.TEXTS), analyzers=len(installed) + 1),
         "exhaustive": False,
     })
     chk.assumptions += [
@@ -777,5 +799,10 @@ def replay(chk, obj):
         sqls, (a, t, n) = script_outcomes(drv, r["asts"])
         print(json.dumps({"sql": sqls, "ansi": a, "tsql": t, "tsql_no_semicolon": n}, indent=1))
         return 1 if a is not None and t is not None and (t != a or (n is not None and n != t)) else 0
+    if r.get("kind") == "text-family":
+        dis, _ = c09_texts.evaluate(run_jobs, [r["reference"], r["analyzer"]], texts=[(r["id"], r["sql"])])
+        sqlimpl.close_pool()
+        print(json.dumps({"sql": r["sql"], "disagreements": [list(x[:3]) for x in dis]}, indent=1, default=str))
+        return 1 if any(x[1] == r["analyzer"] and x[2] == r["what"] for x in dis) else 0
     print("replay file names no concrete input:", json.dumps(r)[:600])
     return 1
